@@ -68,6 +68,12 @@ def build_system(rnd, ncomp, mass_scale):
     fr = [(b - a) / den for a, b in zip([0] + cuts, cuts + [100 * den])]
     M = float(mass_scale)
     mode = rnd.choice(["pct+abs", "abs", "pct"])
+    if ncomp > 1 and mode != "abs" and rnd.random() < 0.2:
+        # a component declared 0 % (the end point of a composition scan), not the last one: it is never drawn and the others keep their places
+        i = rnd.randrange(ncomp - 1)
+        j = rnd.choice([k for k in range(ncomp) if k != i])
+        fr[j] += fr[i]
+        fr[i] = 0.0
     text = ""
     for i, ((mk, t), f) in enumerate(zip(comps, fr)):
         if mode == "abs" or (mode == "pct+abs" and i == ncomp - 1):
@@ -102,7 +108,7 @@ def system_json(system):
     return comps, tables
 
 
-def run_system(system, rng, single=False, max_members=400):
+def run_system(system, rng, single=False, max_members=400, stop_after=None):
     """iterate System.generator (or call System.generate) with the recording generator"""
     wrapped = []
     draws = []
@@ -131,6 +137,8 @@ def run_system(system, rng, single=False, max_members=400):
                 gbigsmiles.System.generator.fget.__defaults__ = (rng,)
                 for mg in system.generator:
                     members.append(mg)
+                    if stop_after is not None and len(members) >= stop_after:
+                        break       # the consumer abandons the iteration
                     if len(members) > max_members:
                         raise RuntimeError("harness: too many members")
     except Exception as exc:
